@@ -536,6 +536,26 @@ func checkC11Wiring(p *Prog, r *Report, ru *Rule) {
 			ru.Unproven("main.rmain:level", posOf(jsonH), "handler options are not nil; the level could hide Info records")
 		}
 	}
+	/* Records reach the file as they are made: the handler writes to the
+	file (or io.Discard) itself, not into a buffer flushed later — a
+	process which is killed, or leaves through log.Fatal, would take the
+	buffered records with it. */
+	if nil != jsonH {
+		buffered := ""
+		for _, x := range valueRoots(jsonH.Common().Args[0], nil) {
+			if "call" == x.Kind {
+				switch x.Callee {
+				case "bufio.NewWriter", "bufio.NewWriterSize", "bufio.NewReadWriter":
+					buffered = x.Callee
+				}
+			}
+		}
+		if "" != buffered {
+			ru.Bad("main.rmain:unbuffered", posOf(jsonH), "the log handler writes into %s: records of delivered lines sit in memory until a flush, and are lost when the process ends without one", buffered)
+		} else {
+			ru.OK("main.rmain:unbuffered", posOf(jsonH), "no buffer between the handler and the file")
+		}
+	}
 	if nil == openF {
 		ru.Bad("main.rmain:open", rm.Pos(), "the -log file is not opened with os.OpenFile")
 	} else if k, ok := constInt(openF.Common().Args[1]); ok {
